@@ -77,7 +77,7 @@ def gen(rng, tier):
         case = dict(violation=v, nsamp=str(nsamp), pops=pops, lines=lines, chroms=chroms, sep=sep, popsize=rng.choice([1, 5, 10, 50]), only_bp=rng.random() < 0.4, no_repl=rng.random() < 0.5, per_pop=per_pop, region=None, seed=rng.randrange(2**31), map_missing=None, bad_map_line=None, bad_sample=None, drop_pop=None, mapdir_ok=True, line_idx=rng.randrange(len(lines)))
         case["extra_maps"] = rng.sample(["10", "11", "12", "17", "20", "21", "3", "72"], rng.randint(0, 4)) if rng.random() < 0.6 else []
         if rng.random() < 0.3:
-            st = rng.choice([100, 150, 250])
+            st = rng.choice([100, 150, 250, 650, 650])  # 650: behind the last marker of every map (the chromosome goes on there)
             case["region"] = {"chr": chroms[0], "start": st, "end": rng.choice([e for e in (150, 250, 450, 600, 5000) if e > st])}
             case["chroms"] = [chroms[0]]
         li = case["line_idx"]
@@ -190,7 +190,7 @@ def materialise(case):
     if case["bad_sample"]:
         info.append(("GHOST", case["pops"][0]))
     ref_chroms = [c for c in case["chroms"] if c in MAPS] or ["1"]
-    variants = [(f"v{c}_{pos}", c, pos, ["A", "C"]) for c in ref_chroms for pos in (120, 250, 450)]
+    variants = [(f"v{c}_{pos}", c, pos, ["A", "C"]) for c in ref_chroms for pos in (120, 250, 450, 700)]
     data = [[((i + j) % 2, (i // 2 + j) % 2, 1) for j in range(len(variants))] for i in range(len(samples))]
     GF.write_vcf_text(d / "ref.vcf", samples, variants, data, contigs=sorted(set(ref_chroms), key=lambda c: 23 if c == "X" else int(c)))
     GF.compress_index(d / "ref.vcf", d / "ref.vcf.gz")
